@@ -94,7 +94,7 @@ def run(ctx, exe, prop):
             # last thing sent for the file (model: SendFile.C17_nothing_after_end; the `plan` line of Model/Resume does not apply)
             stats["late_report"] = stats.get("late_report", 0) + 1
             sent = r.get("sent") or []
-            if prop == "C17" and (r.get("frames_after_end") or sorted(sent) != list(range(c["chunks"]))):
+            if prop == "C17" and r.get("frames_after_end"):
                 ctx.violation("C17:chunk-after-end:late-report", f"resume report (hash {c['hash']}) delivered {c['report_delay_ms']} ms after the request, i.e. after the sender had sent all "
                               f"{c['chunks']} chunks and FileEnd (announcing {r.get('file_end_count')} frames): frames {sent} travelled, {r.get('frames_after_end')} of them after the end record",
                               {"case": c, "result": r})
